@@ -86,8 +86,13 @@ func tierS(tier, q, t string) string {
 }
 
 func segDesign(tier, fam string) []DesignRun {
-	return []DesignRun{{Module: "MCKlevSeg.tla", Cfg: tierS(tier, "seg_"+fam+"_q.cfg", "seg_"+fam+"_t.cfg"), Workers: 16,
+	d := []DesignRun{{Module: "MCKlevSeg.tla", Cfg: tierS(tier, "seg_"+fam+"_q.cfg", "seg_"+fam+"_t.cfg"), Workers: 16,
 		Timeout: time.Duration(tierN(tier, 5, 40)) * time.Minute, Note: "KlevSeg bounded exhaustive, property predicates as invariants"}}
+	if tier == "thorough" && fam == "core" {
+		d = append(d, DesignRun{Module: "MCKlevSeg.tla", Cfg: "seg_opts_t.cfg", Workers: 16, Timeout: 40 * time.Minute,
+			Note: "KlevSeg, wide configuration: every Open option combination, both versions, index removal, migration, read-only"})
+	}
+	return d
 }
 
 func segGen(tier, fam string, keys, times bool) *GenSpec {
@@ -139,25 +144,25 @@ func seqProfile0(prop, tier string) *SeqProfile {
 	switch prop {
 	case "C01":
 		g.TimeMode = "any"
-		return &SeqProfile{Prop: prop, Gen: g, NRandom: tierN(tier, 400, 6000), Module: "TraceAbs.tla", Cfg: "TraceAbs.cfg",
+		return &SeqProfile{Prop: prop, Gen: g, NRandom: tierN(tier, 400, 40000), Module: "TraceAbs.tla", Cfg: "TraceAbs.cfg",
 			Obs:  Obs{Scan: true, Next: true, Maxes: []int64{1, 2, 3, 32}, JudgeOpen: true},
 			Rule: "C01: after every step of every history the full cursor scan must equal the abstract live sequence.",
 		}
 	case "C02":
 		g.WDelete, g.WDeleteMulti, g.WReopen = 25, 8, 16
-		return &SeqProfile{Prop: prop, Gen: g, NRandom: tierN(tier, 400, 6000), Module: "TraceAbs.tla", Cfg: "TraceAbs.cfg",
+		return &SeqProfile{Prop: prop, Gen: g, NRandom: tierN(tier, 400, 40000), Module: "TraceAbs.tla", Cfg: "TraceAbs.cfg",
 			Obs:  Obs{Next: true, JudgePublish: true, JudgeLayout: true, JudgeOpen: true},
 			Rule: "C02: every Publish result (returned offset, written-back offsets), every NextOffset/Sync result after every step and reopen, and the next offset re-derivable from the newest segment file.",
 		}
 	case "C03":
 		g.WTrim, g.WCompact = 1, 1
-		return &SeqProfile{Prop: prop, Gen: g, NRandom: tierN(tier, 150, 2500), Module: "TraceAbs.tla", Cfg: "TraceAbs.cfg",
+		return &SeqProfile{Prop: prop, Gen: g, NRandom: tierN(tier, 150, 8000), Module: "TraceAbs.tla", Cfg: "TraceAbs.cfg",
 			Obs:  Obs{Consume: true, Scan: true, Maxes: []int64{1, 2, 3, 7, 40}, Dense: tier == "thorough"},
 			Rule: "C03: Consume for every offset in [-5, next+2] x maxCount in {1,2,3,7,40} after every step, plus the cursor iteration.",
 		}
 	case "C04":
 		g.WTrim, g.WCompact = 1, 1
-		return &SeqProfile{Prop: prop, Gen: g, NRandom: tierN(tier, 300, 4000), Module: "TraceAbs.tla", Cfg: "TraceAbs.cfg",
+		return &SeqProfile{Prop: prop, Gen: g, NRandom: tierN(tier, 300, 15000), Module: "TraceAbs.tla", Cfg: "TraceAbs.cfg",
 			Obs:  Obs{Get: true, Consume: true, Maxes: []int64{1}, Dense: true},
 			Rule: "C04: Get for every offset in [0, next+2] and both relative offsets after every step; Consume(off,1) is recorded next to it so that agreement is implied by both being judged against the same abstract state.",
 		}
@@ -165,21 +170,21 @@ func seqProfile0(prop, tier string) *SeqProfile {
 		g.IndexCfg = -1
 		g.KeyPool = []string{"n", "a", "b", "c", "e", "f", "g", "l"}
 		q := []string{"n", "a", "b", "c", "d", "e", "f", "g", "l", "p"}
-		return &SeqProfile{Prop: prop, Gen: g, NRandom: tierN(tier, 200, 3000), Module: "TraceAbs.tla", Cfg: "TraceAbs.cfg",
+		return &SeqProfile{Prop: prop, Gen: g, NRandom: tierN(tier, 200, 6000), Module: "TraceAbs.tla", Cfg: "TraceAbs.cfg",
 			Obs:  Obs{Key: true, KeyQ: q, Maxes: []int64{1, 2, 40}},
 			Hist: func(id int, seed int64) *History { gg := g; gg.IndexCfg = []int{1, 1, 3, 3, 0, 2}[id%6]; return genHistory(id, seed, gg) },
 			Rule: "C09: GetByKey/OffsetByKey for every key of the query set (incl. absent keys colliding with present ones) and ConsumeByKey for every cursor offset, after every step; keys a/b, c/d, e/f are real FNV-1a-64 collisions.",
 		}
 	case "C10":
 		g.TimeMode = "mono"
-		return &SeqProfile{Prop: prop, Gen: g, NRandom: tierN(tier, 250, 3500), Module: "TraceAbs.tla", Cfg: "TraceAbs.cfg",
+		return &SeqProfile{Prop: prop, Gen: g, NRandom: tierN(tier, 250, 15000), Module: "TraceAbs.tla", Cfg: "TraceAbs.cfg",
 			Obs:  Obs{Time: true},
 			Hist: func(id int, seed int64) *History { gg := g; gg.IndexCfg = []int{2, 3, 2, 3, 0, 1}[id%6]; return genHistory(id, seed, gg) },
 			Rule: "C10: GetByTime/OffsetByTime at every microsecond from 2 before the first to 2 after the last published time, after every step; times never decrease and contain equal runs.",
 		}
 	case "C12":
 		g.WDelete, g.WDeleteMulti, g.WPublish = 30, 12, 40
-		return &SeqProfile{Prop: prop, Gen: g, NRandom: tierN(tier, 400, 6000), Module: "TraceAbs.tla", Cfg: "TraceAbs.cfg",
+		return &SeqProfile{Prop: prop, Gen: g, NRandom: tierN(tier, 400, 40000), Module: "TraceAbs.tla", Cfg: "TraceAbs.cfg",
 			Obs:  Obs{Scan: true, JudgeDelete: true, Maxes: []int64{3, 32}},
 			Rule: "C12: every Delete/DeleteMulti result (set, content, size, error) judged, followed by a full scan.",
 		}
@@ -188,7 +193,7 @@ func seqProfile0(prop, tier string) *SeqProfile {
 		g.WReopen = 12
 		g.Steps = 20
 		q := []string{"n", "a", "b", "c", "g"}
-		return &SeqProfile{Prop: prop, Gen: g, NRandom: tierN(tier, 250, 3000), Module: "TraceAbs.tla", Cfg: "TraceAbs.cfg",
+		return &SeqProfile{Prop: prop, Gen: g, NRandom: tierN(tier, 250, 20000), Module: "TraceAbs.tla", Cfg: "TraceAbs.cfg",
 			Obs: Obs{JudgeLayout: true, KeyQ: q, JudgeOpen: true},
 			Hist: func(id int, seed int64) *History {
 				gg := g
@@ -204,7 +209,7 @@ func seqProfile0(prop, tier string) *SeqProfile {
 		g.ROPct = 0
 		g.WPublish = 60
 		q := []string{"n", "a", "b", "g"}
-		return &SeqProfile{Prop: prop, Gen: g, NRandom: tierN(tier, 300, 4000), Module: "TraceAbs.tla", Cfg: "TraceAbs.cfg",
+		return &SeqProfile{Prop: prop, Gen: g, NRandom: tierN(tier, 300, 40000), Module: "TraceAbs.tla", Cfg: "TraceAbs.cfg",
 			Obs: Obs{KeyQ: q},
 			Hist: func(id int, seed int64) *History {
 				gg := g
@@ -242,7 +247,7 @@ func seqProfile0(prop, tier string) *SeqProfile {
 					return
 				}
 				r.GenStates, r.NGen = n, len(hs)
-				for i := 0; i < tierN(tier, 300, 5000); i++ {
+				for i := 0; i < tierN(tier, 300, 60000); i++ {
 					hs = append(hs, genHandleHist(1000000+i, r.Seed, 14))
 				}
 				r.execHandleHists(hs)
@@ -252,7 +257,7 @@ func seqProfile0(prop, tier string) *SeqProfile {
 	case "C13":
 		g.Steps = 20
 		q := []string{"n", "a", "b", "g", "k17"}
-		return &SeqProfile{Prop: prop, Gen: g, NRandom: tierN(tier, 360, 5000), Module: "TraceAbs.tla", Cfg: "TraceAbs.cfg",
+		return &SeqProfile{Prop: prop, Gen: g, NRandom: tierN(tier, 360, 14000), Module: "TraceAbs.tla", Cfg: "TraceAbs.cfg",
 			Obs: Obs{Scan: true, Stat: true, Size: true, JudgeLayout: true, JudgeOpen: true, Get: true, Key: true, Time: true, KeyQ: q, Maxes: []int64{1, 32}},
 			Hist: func(id int, seed int64) *History {
 				switch id % 6 {
@@ -311,7 +316,7 @@ func seqProfile0(prop, tier string) *SeqProfile {
 		g.TrimKinds = []string{"offset", "count", "size", "age"}
 		g.Versions = false
 		g.Steps = 28
-		return &SeqProfile{Prop: prop, Gen: g, NRandom: tierN(tier, 500, 8000), Module: "TraceAbs.tla", Cfg: "TraceAbs.cfg",
+		return &SeqProfile{Prop: prop, Gen: g, NRandom: tierN(tier, 500, 60000), Module: "TraceAbs.tla", Cfg: "TraceAbs.cfg",
 			Obs: Obs{JudgeTrim: true, Scan: true, Maxes: []int64{32}},
 			Hist: func(id int, seed int64) *History {
 				gg := g
@@ -330,7 +335,7 @@ func seqProfile0(prop, tier string) *SeqProfile {
 		g.Tomb = 35
 		g.TimeMode = "spaced"
 		g.Steps = 26
-		return &SeqProfile{Prop: prop, Gen: g, NRandom: tierN(tier, 500, 8000), Module: "TraceAbs.tla", Cfg: "TraceAbs.cfg",
+		return &SeqProfile{Prop: prop, Gen: g, NRandom: tierN(tier, 500, 60000), Module: "TraceAbs.tla", Cfg: "TraceAbs.cfg",
 			Obs: Obs{JudgeCompact: true, Scan: true, Maxes: []int64{32}},
 			Hist: func(id int, seed int64) *History {
 				gg := g
@@ -348,7 +353,7 @@ func seqProfile0(prop, tier string) *SeqProfile {
 		g.Versions = true
 		g.WReopen = 18
 		g.WDelete, g.WDeleteMulti = 22, 6
-		return &SeqProfile{Prop: prop, Gen: g, NRandom: tierN(tier, 400, 6000), Module: "TraceAbs.tla", Cfg: "TraceAbs.cfg",
+		return &SeqProfile{Prop: prop, Gen: g, NRandom: tierN(tier, 400, 50000), Module: "TraceAbs.tla", Cfg: "TraceAbs.cfg",
 			Obs:  Obs{Scan: true, Next: true, Layout: true, JudgeOpen: true, Maxes: []int64{32}},
 			Rule: "C17: per-file format versions (projected by the reference codec) before/after every Open, Publish, Delete and Migrate judged against the version rules; scan and NextOffset after every step.",
 		}
